@@ -4,6 +4,6 @@
 (assert
  (not (<= 1 attempts!1)))
 (assert
- (let (($x33 (< attempts!1 1)))
-(not $x33)))
+ (let (($x34 (< attempts!1 1)))
+(not $x34)))
 (check-sat)
